@@ -1245,6 +1245,8 @@ enum EdgeHook {
     OnStart,
     OnRun,
     OnStop,
+    /// on_stop run as clean-up after on_run returned an error
+    OnStopAfterRunErr,
 }
 
 #[derive(Clone, Copy, Debug, PartialEq)]
@@ -1296,6 +1298,10 @@ fn ring(n: usize, hooks: &[EdgeHook], kinds: &[EdgeKind], name: String) -> Scena
                 a.on_stop = HookSpec { entry_yield: true, steps: asking, out: Outcome::Ok, free: false };
                 clients.push(Program::new(vec![(0, i)], vec![Step::Stop(0)]));
             }
+            EdgeHook::OnStopAfterRunErr => {
+                a.on_run = vec![HookSpec { entry_yield: false, steps: vec![Step::Yield], out: Outcome::Err(9), free: false }];
+                a.on_stop = HookSpec { entry_yield: true, steps: asking, out: Outcome::Ok, free: false };
+            }
         }
         actors.push(a);
     }
@@ -1325,9 +1331,28 @@ fn chain(n: usize, kinds: &[EdgeKind], name: String) -> Scenario {
 fn gen_c14(thorough: bool) -> Vec<Scenario> {
     let mut out = Vec::new();
     let mut n = 0;
-    let hooks = [EdgeHook::Handler, EdgeHook::OnStart, EdgeHook::OnRun, EdgeHook::OnStop];
+    let hooks = [EdgeHook::Handler, EdgeHook::OnStart, EdgeHook::OnRun, EdgeHook::OnStop, EdgeHook::OnStopAfterRunErr];
     let kinds = [EdgeKind::Ask, EdgeKind::AskTO, EdgeKind::Erased];
     let maxn = if thorough { 4 } else { 3 };
+    // rings whose mailboxes are full while the edges are created: every actor has capacity 1 and a filler queued,
+    // so each ask of the ring waits for a slot before it is even delivered
+    for len in 2..=3usize {
+        for kind in kinds {
+            let mut s = ring(len, &vec![EdgeHook::Handler; len], &vec![kind; len], String::new());
+            let mut next_id = 1000;
+            for a in s.actors.iter_mut() {
+                a.cap = Some(1);
+            }
+            for c in s.clients.iter_mut() {
+                next_id += 1;
+                c.steps.push(Step::Fuse);
+                c.steps.push(send(SendKind::Tell, 0, MsgSpec::quick(next_id)));
+            }
+            n += 1;
+            s.name = format!("c14-{n}-fullring{len}-{kind:?}");
+            out.push(s);
+        }
+    }
     for len in 1..=maxn {
         // every assignment of edges to hooks (plain ask)
         for hs in seqs(&hooks, len).into_iter().filter(|h| h.len() == len) {
@@ -1419,6 +1444,63 @@ fn gen_c15(thorough: bool) -> Vec<Scenario> {
             }
         }
     }
+    // two asks issued together by one handler (join!); the one issued first finishes first; later that callee asks back
+    for timed in [false, true] {
+        let mut ids = Ids(0);
+        let quick = MsgSpec::quick(ids.next());
+        let slow = MsgSpec::m1(ids.next()).steps(vec![Step::Yield]);
+        let go = MsgSpec::m1(ids.next()).steps(vec![Step::JoinAsk { slot_a: REG_BASE + 1, msg_a: quick, slot_b: REG_BASE + 2, msg_b: slow }]);
+        let back = MsgSpec::m1(ids.next()).steps(ask_steps(EdgeKind::Ask, 0, MsgSpec::quick(ids.next())));
+        let c0 = Program::new(vec![(0, 0)], vec![send(SendKind::Ask, 0, go)]);
+        // the ask back comes only after the first client's ask (and so both joined asks) has finished
+        let c1 = if timed {
+            Program::new(vec![(0, 1)], vec![Step::Sleep(10), send(SendKind::Tell, 0, back)])
+        } else {
+            Program::new(vec![(0, 1)], vec![Step::WaitSig(0), send(SendKind::Tell, 0, back)])
+        };
+        let mut c0 = c0;
+        if !timed {
+            c0.steps.push(Step::Signal(0));
+        }
+        n += 1;
+        let mut s = scn(format!("c15-{n}-joined-asks-timed{timed}"), vec![ActorSpec::plain(3), ActorSpec::plain(3), ActorSpec::plain(3)], vec![c0, c1], &["quiet"]);
+        s.registry = true;
+        out.push(s);
+    }
+    // the asked actor is busy, its ask-back message is queued BEFORE the ping, and the ping's asker gives up
+    // (timeout / on_run cancelled) long before the busy handler ends: the ping is never answered in between
+    for how in 0..2 {
+        let mut ids = Ids(0);
+        let mut busy = MsgSpec::m1(ids.next()).steps(vec![Step::Sleep(20)]);
+        busy.entry_yield = false;
+        let back = MsgSpec::m1(ids.next()).steps(ask_steps(EdgeKind::Ask, 0, MsgSpec::quick(ids.next())));
+        let ping = MsgSpec::quick(ids.next());
+        let mut actors = vec![ActorSpec::plain(3), ActorSpec::plain(3)];
+        let mut clients = vec![Program { slots: vec![(0, 1)], steps: vec![send(SendKind::Tell, 0, busy), send(SendKind::Tell, 0, back)], auto_yield: false, free: false }];
+        if how == 0 {
+            let go = MsgSpec::m1(ids.next()).steps(vec![send(SendKind::AskTO(10), REG_BASE + 1, ping)]);
+            clients.push(Program::new(vec![(0, 0)], vec![Step::Sleep(1), send(SendKind::Tell, 0, go)]));
+        } else {
+            actors[0].on_run = vec![HookSpec { entry_yield: false, steps: vec![Step::Sleep(1), send(SendKind::Ask, REG_BASE + 1, ping)], out: Outcome::OkFalse, free: false }];
+            clients.push(Program::new(vec![(0, 0)], vec![Step::Sleep(5), send(SendKind::Tell, 0, MsgSpec::quick(ids.next()))]));
+        }
+        n += 1;
+        let mut s = scn(format!("c15-{n}-gave-up-unanswered-{how}"), actors, clients, &["quiet"]);
+        s.registry = true;
+        out.push(s);
+    }
+    // an ask whose future is destroyed by unwinding (a joined branch of the same handler panics)
+    {
+        let mut ids = Ids(0);
+        let slow = MsgSpec::m1(ids.next()).steps(vec![Step::Yield, Step::Yield]);
+        let go = MsgSpec::m1(ids.next()).steps(vec![Step::JoinAskPanic { slot: REG_BASE + 1, msg: slow }]);
+        let c0 = Program::new(vec![(0, 0)], vec![send(SendKind::Tell, 0, go)]);
+        let c1 = Program::new(vec![(0, 1)], vec![send(SendKind::Ask, 0, MsgSpec::m1(ids.next()))]);
+        n += 1;
+        let mut s = scn(format!("c15-{n}-ask-unwound"), vec![ActorSpec::plain(3), ActorSpec::plain(3)], vec![c0, c1], &["quiet"]);
+        s.registry = true;
+        out.push(s);
+    }
     out
 }
 
@@ -1504,6 +1586,16 @@ fn gen_c20(thorough: bool) -> Vec<Scenario> {
                 out.push(scn(format!("c20-{n}-{seq:?}-{cause:?}-r{readers}"), vec![a], clients, &["metrics_build"]));
             }
         }
+    }
+    // one handler that takes more than a second of real time (durations are kept with full precision)
+    {
+        let mut ids = Ids(0);
+        let mut m = MsgSpec::m1(ids.next()).steps(vec![Step::Busy(1050)]);
+        m.entry_yield = false;
+        let mut c0 = Program::new(vec![(0, 0)], vec![send(SendKind::Tell, 0, m), send(SendKind::Ask, 0, MsgSpec::quick(ids.next())), Step::Stop(0), Step::Sleep(10), Step::Metrics(0)]);
+        c0.auto_yield = false;
+        n += 1;
+        out.push(scn(format!("c20-{n}-long-handler"), vec![ActorSpec::plain(2)], vec![c0], &["metrics_build"]));
     }
     out
 }
@@ -1785,7 +1877,7 @@ fn gen_c18(thorough: bool) -> Vec<Scenario> {
     take(gen_c11(false), 2);
     take(gen_c13(false), 12);
     // hooks that ask other actors, but never back (exercises the wait-for bookkeeping without any cycle)
-    for hook in [EdgeHook::Handler, EdgeHook::OnStart, EdgeHook::OnRun, EdgeHook::OnStop] {
+    for hook in [EdgeHook::Handler, EdgeHook::OnStart, EdgeHook::OnRun, EdgeHook::OnStop, EdgeHook::OnStopAfterRunErr] {
         for kind in [EdgeKind::Ask, EdgeKind::AskTO, EdgeKind::Erased] {
             let mut ids = Ids(0);
             let mut a0 = ActorSpec::plain(2);
@@ -1803,12 +1895,62 @@ fn gen_c18(thorough: bool) -> Vec<Scenario> {
                     a0.on_stop = HookSpec { entry_yield: true, steps: asking, out: Outcome::Ok, free: false };
                     clients.push(Program::new(vec![(0, 0)], vec![Step::Stop(0)]));
                 }
+                EdgeHook::OnStopAfterRunErr => {
+                    a0.on_run = vec![HookSpec { entry_yield: false, steps: vec![Step::Yield], out: Outcome::Err(9), free: false }];
+                    a0.on_stop = HookSpec { entry_yield: true, steps: asking, out: Outcome::Ok, free: false };
+                }
             }
             clients.push(Program::new(vec![(0, 1), (1, 0)], vec![send(SendKind::Ask, 0, MsgSpec::m1(ids.next())), send(SendKind::Tell, 1, MsgSpec::m1(ids.next())), Step::Kill(0)]));
             let mut s = scn(format!("c18-tree-{hook:?}-{kind:?}"), vec![a0, a1], clients, &[]);
             s.registry = true;
             out.push(s);
         }
+    }
+    for how in 0..2 {
+        let mut ids = Ids(0);
+        let mut busy = MsgSpec::m1(ids.next()).steps(vec![Step::Sleep(20)]);
+        busy.entry_yield = false;
+        let back = MsgSpec::m1(ids.next()).steps(vec![send(SendKind::Ask, REG_BASE, MsgSpec::quick(ids.next()))]);
+        let ping = MsgSpec::quick(ids.next());
+        let mut actors = vec![ActorSpec::plain(3), ActorSpec::plain(3)];
+        let mut clients = vec![Program { slots: vec![(0, 1)], steps: vec![send(SendKind::Tell, 0, busy), send(SendKind::Tell, 0, back)], auto_yield: false, free: false }];
+        if how == 0 {
+            let go = MsgSpec::m1(ids.next()).steps(vec![send(SendKind::AskTO(10), REG_BASE + 1, ping)]);
+            clients.push(Program::new(vec![(0, 0)], vec![Step::Sleep(1), send(SendKind::Tell, 0, go)]));
+        } else {
+            actors[0].on_run = vec![HookSpec { entry_yield: false, steps: vec![Step::Sleep(1), send(SendKind::Ask, REG_BASE + 1, ping)], out: Outcome::OkFalse, free: false }];
+            clients.push(Program::new(vec![(0, 0)], vec![Step::Sleep(5), send(SendKind::Tell, 0, MsgSpec::quick(ids.next()))]));
+        }
+        let mut s = scn(format!("c18-gave-up-unanswered-{how}"), actors, clients, &[]);
+        s.registry = true;
+        out.push(s);
+    }
+    // cyclic topology, but the asks are separated in virtual time: no ask cycle in any schedule
+    for variant in 0..3 {
+        let mut ids = Ids(0);
+        let actors = vec![ActorSpec::plain(3), ActorSpec::plain(3), ActorSpec::plain(3)];
+        let (go, t_back) = match variant {
+            // A0 asks A1 with a timeout that expires (A1 is busy for 20 ms); at t=40 A1 asks A0
+            0 => {
+                let mut ping = MsgSpec::m1(ids.next()).steps(vec![Step::Sleep(20)]);
+                ping.entry_yield = false;
+                (MsgSpec::m1(ids.next()).steps(vec![send(SendKind::AskTO(10), REG_BASE + 1, ping)]), 40)
+            }
+            // A0 asks A1 and gets its reply; at t=40 A1 asks A0
+            1 => (MsgSpec::m1(ids.next()).steps(vec![send(SendKind::Ask, REG_BASE + 1, MsgSpec::quick(ids.next()))]), 40),
+            // A0 asks A1 and A2 together; at t=40 A1 asks A0
+            _ => {
+                let quick = MsgSpec::quick(ids.next());
+                let slow = MsgSpec::m1(ids.next()).steps(vec![Step::Sleep(10)]);
+                (MsgSpec::m1(ids.next()).steps(vec![Step::JoinAsk { slot_a: REG_BASE + 1, msg_a: quick, slot_b: REG_BASE + 2, msg_b: slow }]), 40)
+            }
+        };
+        let back = MsgSpec::m1(ids.next()).steps(vec![send(SendKind::Ask, REG_BASE, MsgSpec::quick(ids.next()))]);
+        let c0 = Program::new(vec![(0, 0)], vec![send(SendKind::Tell, 0, go)]);
+        let c1 = Program::new(vec![(0, 1)], vec![Step::Sleep(t_back), send(SendKind::Ask, 0, back)]);
+        let mut s = scn(format!("c18-separated-{variant}"), actors, vec![c0, c1], &[]);
+        s.registry = true;
+        out.push(s);
     }
     for (i, s) in out.iter_mut().enumerate() {
         s.tags.retain(|t| t != "quiet" && t != "probe");
